@@ -8,8 +8,8 @@ method of the container and the module-level function of measures/degree.py resp
 * quick:    every Hypergraph on the node set {0..n-1}, n <= 4, with <= 4 distinct hyperedges of size 1..4, and n = 5
             with <= 3 hyperedges (nodes are added first, so uncovered nodes are isolated nodes; singleton hyperedges
             included); the same structures for n <= 4 / <= 3 hyperedges with string labels.
-* thorough: additionally n = 5 with <= 4 hyperedges (31 931 labelled hypergraphs), string labels for n = 5 / <= 3
-            hyperedges and n = 4 / <= 4 hyperedges.
+* thorough: additionally n = 5 with <= 4 hyperedges (31 931 labelled hypergraphs), and all of it once more with
+            string labels.
 * degrees only, for the other containers: every DirectedHypergraph on <= 3 nodes / <= 3 hyperedges and 4 nodes /
   <= 2 hyperedges (thorough: 4 nodes / <= 3) with non-empty disjoint source and target sets; every
   TemporalHypergraph and MultiplexHypergraph on <= 3 nodes, two times resp. two layers, <= 3 hyperedges of size
@@ -32,6 +32,8 @@ methods / functions only.  A case whose container disagrees with the ghost model
 Limits
 ------
 * components, isolated nodes: Hypergraph only (the statement extends only the degrees to the other containers).
+* MultiplexHypergraph has no degree_distribution method: only the module-level function is driven for it.
+* replay() re-executes one (history, filter) pair and reports the clause named by the recorded key.
 * the empty hypergraph (no node) is a trivial case; largest_component(_size) may reject it (max of nothing).
 * calling with both order and size is rejected by the code with ValueError; the statement does not speak about it.
 * a DirectedHypergraph hyperedge whose source and target share a node has no agreed size / multiplicity (the code
@@ -562,9 +564,9 @@ def run(ctx):
     for k in (1, 2, 3, 4):
         n += _run_jobs(ctx, total, enum_hypergraphs(k, 3 if q else 4, labels=STR), F5)
     if not q:
-        n += _run_jobs(ctx, total, enum_hypergraphs(5, 3, labels=STR), F5)
+        n += _run_jobs(ctx, total, enum_hypergraphs(5, 4, labels=STR), F5)
     ctx.exhaustive_parts.append(f"Hypergraph with string labels: n<=4 with <={3 if q else 4} hyperedges"
-                                f"{'' if q else ', n=5 with <=3 hyperedges'} ({n} hypergraphs) x {len(F5)} filters")
+                                f"{'' if q else ', n=5 with <=4 hyperedges'} ({n} hypergraphs) x {len(F5)} filters")
 
     # --- other containers: degrees, exhaustive
     n = 0
